@@ -229,7 +229,7 @@ def main():
         teardown = ob.setup() if ob.setup else None
         stats = collections.Counter()
         if twin and canary is None:
-            msgs, cap, cpu = run(ob, True, min(timeout, 60.0), collections.Counter())
+            msgs, cap, cpu = run(ob, True, min(timeout, 120.0), collections.Counter())
             states = [m.state.name for m in msgs]
             rec["twin"] = {"states": states, "cpu_s": round(cpu, 2)}
             if "POST_FAIL" not in states and "EXEC_ERR" not in states:
